@@ -88,8 +88,11 @@ def model_environ(it, cfg, unix):
     env["QUERY_STRING"] = query
     env["REQUEST_URI"] = b2s(it.target)
     env["wsgi.url_scheme"] = cfg.get("url_scheme", "http")
-    env["SERVER_NAME"] = cfg.get("server_name", "waitress.invalid")
-    env["SERVER_SOFTWARE"] = "waitress"
+    # server-defined variables come from the configuration (defaults read from the code under test): what the property fixes is that
+    # they are the server's and cannot be replaced by a client header, not which default strings the server ships with
+    from waitress.adjustments import Adjustments
+    env["SERVER_NAME"] = cfg.get("server_name", Adjustments.server_name)
+    env["SERVER_SOFTWARE"] = Adjustments.ident
     if unix:
         env["REMOTE_ADDR"] = env["REMOTE_HOST"] = "localhost"
         env["REMOTE_PORT"] = "None"
